@@ -16,6 +16,7 @@ import os
 from engine import cg, mirlib as M, facts
 
 LEVEL = "other"
+THOROUGH_VIEWS = ("cap=3",)   # this module already reads both the library's and the binary's copy where it matters
 TABLE = os.path.join(facts.VERIF, "tables", "hash_iteration.tbl")
 AMBIENT = os.path.join(facts.VERIF, "tables", "ambient_sources.tbl")
 HASH_TYPES = ("std::collections::HashMap", "std::collections::HashSet", "std::collections::hash_map::", "std::collections::hash_set::")
